@@ -1,0 +1,27 @@
+//go:build verif
+
+package verifhook
+
+import "sync/atomic"
+
+type callback func(name string, args ...any)
+
+var cb atomic.Pointer[callback]
+
+// Set installs (or, with nil, removes) the callback invoked at every Point.
+func Set(f func(name string, args ...any)) {
+	if f == nil {
+		cb.Store(nil)
+		return
+	}
+	c := callback(f)
+	cb.Store(&c)
+}
+
+// Point calls the installed callback, if any. The callback may block the calling goroutine
+// (forced schedules) or panic (crash injection).
+func Point(name string, args ...any) {
+	if f := cb.Load(); f != nil {
+		(*f)(name, args...)
+	}
+}
